@@ -221,8 +221,10 @@ int cholnzcnt(int_t neqns, int_t *xadj, int_t *adjncy,
 	   ---------------------------------------------------- */
 	parent = etpar[lownbr];
 	--weight[parent];
-	if (lflag == 1 || nchild[lownbr] >= 2) {
-	    /* lownbr is the first vertex of a supernode */
+	if (lflag == 1 || nchild[lownbr] >= 2 || nchild[lownbr] == 0) {
+	    /* lownbr is the first vertex of a supernode (a vertex without
+	       children cannot continue the chain that ends at lownbr-1, even
+	       when it has no higher neighbour at all - an isolated vertex) */
 	    part_super_L[xsup] = lownbr - xsup;
 	    xsup = lownbr;
 	}
